@@ -379,7 +379,7 @@ def gen_cases(rng, tier):
                                              "maps-old-kernel" if any(_missing(m) for m in ms) else "maps-identical-rows" if _twin_class(ms) else "maps-edge-blank" if _edge_class(c) else "maps-ambiguous-deleted" if amb else
                                              "maps-repeated-paths" if len(set(paths)) < len(paths) else "maps")
         cases.append(c)
-    # ---- the existence probe answers EACCES / EPERM for an unlinked file's marked name (finding class)
+    # ---- the existence probe answers EACCES / EPERM for an unlinked file's marked name (repaired by b718f0c)
     for _ in range(2 if tier != "thorough" else 20):
         ms = _mappings(rng, rng.choice([1, 2, 3]))
         victim = rng.choice(ms)
@@ -632,9 +632,8 @@ def coq_struct(case, raw):
 
 # ------------------------------------------------------------------ judging
 def finding_key(case, coq):
-    # (memory_maps-path-edge-blank was repaired by /repo commit c15178c)
-    if case["kind"] == "maps" and _denied_class(case):
-        return "memory_maps-probe-permission"
+    # memory_maps-path-edge-blank was repaired by /repo commit c15178c, memory_maps-probe-permission by b718f0c:
+    # no open finding class
     return None
 
 
@@ -920,7 +919,7 @@ MANIFEST = {
             "less than one kB per mapping; memory_maps(grouped=False) is one row per mapping with its own address, permissions, path as the kernel "
             "shows it ('[anon]' if none, ' (deleted)' marker removed, newline as \\012) and ten figures for every listing whose line set is the same "
             "on every mapping (the never-cleared dict is refuted by a witness otherwise) and for every answer of the os.stat probe of a marked name "
-            "(there / not there for whatever errno: one row per record, in order; a permission error is refuted: known finding); the grouped view has one row per distinct path, each "
+            "(there / not there for whatever errno / permission denied: one row per record, in order; the behaviour before commit b718f0c is refuted); the grouped view has one row per distinct path, each "
             "field the sum over that path's mappings; memory_percent is 100*field/total for exactly the ten field names and ValueError for every "
             "other name (attribute-like names included) whatever the process state, and over every history of virtual_memory() calls and MemTotal changes "
             "the denominator is the total reported by the last virtual_memory() call. The path decoding used before commit c15178c is kept as "
